@@ -1213,8 +1213,19 @@ class Engine:
                                     name="%s.<locals>.%s" % (outer, s.name))
 
     def st_Try(self, s, fr):
-        if s.finalbody or s.orelse:
-            raise Unsupported("try/finally or try/else")
+        if s.orelse:
+            raise Unsupported("try/else")
+        if not s.finalbody:
+            return self._try_body(s, fr)
+        # try / except / finally: the final block runs on every way out (normal, return, break, continue, exception)
+        try:
+            self._try_body(s, fr)
+        except (PyExc, _Return, _Break, _Continue):
+            self.exec_block(s.finalbody, fr)
+            raise
+        self.exec_block(s.finalbody, fr)
+
+    def _try_body(self, s, fr):
         try:
             self.exec_block(s.body, fr)
         except PyExc as e:
